@@ -2,6 +2,7 @@ import LyModel.Base
 import LyModel.Text.Drv
 import LyModel.XsdRe.Drv
 import LyModel.Val.Drv
+import LyModel.Path.Drv
 /-! Dispatch table of the line-protocol driver: one handler per component. -/
 namespace LyModel.Drv
 
@@ -11,6 +12,7 @@ def dispatch (comp op : String) (args : List String) : String :=
   | "text" => Text.Drv.handle op args
   | "xsdre" => XsdRe.Drv.handle op args
   | "val" => Val.Drv.handle op args
+  | "path" => Path.Drv.handle op args
   | _ => "err NoSuchComponent"
 
 end LyModel.Drv
